@@ -52,6 +52,10 @@ def cases(tier, seed):
         # the same model object serves another estimand first: the turnout intervals (checked against the reference above)
         # must come out the same when turnout is the second estimand of the request
         out.append({"pattern": list(pat), "counts": list(cs), "outstanding": [True] * len(pat), "seed": seed, "after_other_estimand": True})
+    # the classification table of two states whose classes cross: (A, r) and (B, u) have their own model, (A, u) and (B, r)
+    # are small and still have outstanding units - group keys have to be matched as pairs, not column by column
+    for cs in ((10, 1, 10, 1), (11, 0, 10, 9), (10, 9, 11, 1)):
+        out.append({"pattern": ["A", "A", "B", "B"], "counts": list(cs), "outstanding": [True] * 4, "seed": seed, "crossed": True})
     # a silent state: state B has outstanding units only (no reporting unit at all, hence no calibration unit)
     for pat, css in ((("A", "B"), [(9,), (10,), (11,)]), (("A", "A", "B"), [(10, 9), (0, 10), (11, 11), (9, 1)])):
         for cs in css:
@@ -130,6 +134,29 @@ def wmedian(values, weights):
     return pairs[idx + 1][0], knife
 
 
+def _crossed(case, units, groups, cov, viol, V):
+    cls_of = {g["county"]: ("r", "u", "u", "r")[i] for i, g in enumerate(groups[:4])}
+    for u in units:
+        u["cls"] = cls_of.get(u["county"], "r")
+    cfg = E.make_cfg(pi_method="gaussian", estimands=["turnout"], alphas=[0.7, 0.9], aggregates=["postal_code", "county_classification", "unit"], features=[])
+    res = E.run_estimates(units, cfg)
+    if "error" in res:
+        viol("run-raised", f"crossed classification groups: {res['error']}")
+    else:
+        rows = {(r["postal_code"], r["county_classification"]): r for r in E.tab_rows_num(res["ok"]["classification_data"])}
+        for key in (("AA", "r"), ("AA", "u"), ("BB", "u"), ("BB", "r")):
+            r = rows.get(key)
+            if r is None:
+                viol("group-missing", f"classification_data: group {key} with outstanding units has no row")
+                continue
+            for a in (0.7, 0.9):
+                lo, up = r[f"lower_{a}_turnout"], r[f"upper_{a}_turnout"]
+                if not (math.isfinite(lo) and math.isfinite(up) and lo <= up):
+                    viol("interval-not-finite", f"classification_data {key} alpha={a}: ({lo},{up})")
+        cov["crossed_classification_structures"] += 1
+    return {"violations": V, "cov": dict(cov), "outcome": "crossed", "nontrivial": True}
+
+
 def evaluate(case):
     import numpy as np
     from scipy import stats
@@ -143,6 +170,8 @@ def evaluate(case):
             V.append({"sig": f"C15:{kind}", "msg": f"structure={ {k: case[k] for k in ('pattern', 'counts', 'outstanding')} }: {msg}"[:1100]})
 
     units, groups, cal_pos, train = build(case)
+    if case.get("crossed"):
+        return _crossed(case, units, groups, cov, viol, V)
     alphas = [0.7, 0.9]
     beta = case.get("beta", 1)
     cfg = E.make_cfg(pi_method="gaussian", estimands=["turnout"], alphas=alphas, aggregates=["postal_code", "county_fips", "unit"], features=[], model_parameters={"beta": beta} if beta != 1 else {})
@@ -256,4 +285,4 @@ def evaluate(case):
     return {"violations": V, "cov": dict(cov), "outcome": sha({k: v["rows"] for k, v in res["ok"].items() if k != "unit_data"})[:16], "nontrivial": fallback}
 
 
-REQUIRED_COUNTERS = {"group_intervals_recomputed": 500, "county_fips_uses_own": 50, "county_fips_uses_state": 50, "county_fips_uses_all": 50, "postal_code_uses_own": 50, "postal_code_uses_all": 20, "non_default_beta_runs": 10, "intervals_compared_as_second_estimand": 10, "silent_state_structures": 7}
+REQUIRED_COUNTERS = {"group_intervals_recomputed": 500, "county_fips_uses_own": 50, "county_fips_uses_state": 50, "county_fips_uses_all": 50, "postal_code_uses_own": 50, "postal_code_uses_all": 20, "non_default_beta_runs": 10, "intervals_compared_as_second_estimand": 10, "silent_state_structures": 7, "crossed_classification_structures": 3}
